@@ -63,7 +63,11 @@ type Expect struct {
 	OK          bool
 	Errnos      []uint32 // when !OK: acceptable errno values; empty = any non-zero errno
 	Unspecified bool     // no prediction; nothing may be compared; model state unchanged
-	Why         string
+	// Either: success and failure are both acceptable (POSIX and WASI implementations
+	// differ); the model followed the observed outcome: the effect was applied iff the call
+	// succeeded, a failed call left the state unchanged.
+	Either bool
+	Why    string
 }
 
 func ok() Expect                        { return Expect{OK: true} }
@@ -72,7 +76,7 @@ func unspec(why string) Expect          { return Expect{Unspecified: true, Why: 
 
 // Matches reports whether an observed errno is compatible with the expectation.
 func (e Expect) Matches(errno uint32) bool {
-	if e.Unspecified {
+	if e.Unspecified || e.Either {
 		return true
 	}
 	if e.OK {
@@ -341,24 +345,33 @@ func (m *Model) FdClose(fd int32) Expect {
 }
 
 // FdRenumber models fd_renumber: `from` is moved to `to`; a descriptor open at `to` is
-// closed; onto itself is a no-op.
-func (m *Model) FdRenumber(from, to int32) Expect {
+// closed; onto itself is a no-op. When a pre-opened directory is involved an implementation
+// may refuse (wazero: ENOTSUP) or perform the move (dup2 semantics): the model then follows
+// the observed outcome (observedOK) - a refused call changes nothing.
+func (m *Model) FdRenumber(from, to int32, observedOK bool) Expect {
 	d := m.FDs[from]
 	if d == nil {
 		return fail("source descriptor is not open", EBADF)
 	}
-	if to < 0 || d.Stdio || d.Preopen {
-		return unspec("renumbering stdio or a pre-open")
+	if to < 0 || d.Stdio {
+		return unspec("renumbering stdio")
 	}
-	if t := m.FDs[to]; t != nil && (t.Stdio || t.Preopen) {
-		return unspec("renumbering onto stdio or a pre-open")
+	t := m.FDs[to]
+	if t != nil && t.Stdio {
+		return unspec("renumbering onto stdio")
 	}
-	if from == to {
-		return ok()
+	either := d.Preopen || (t != nil && t.Preopen)
+	if either && !observedOK {
+		return Expect{Either: true, Why: "renumbering from/onto a pre-open may be refused"}
 	}
-	m.FDs[to] = d
-	delete(m.FDs, from)
-	m.Freed[from] = true
+	if from != to {
+		m.FDs[to] = d
+		delete(m.FDs, from)
+		m.Freed[from] = true
+	}
+	if either {
+		return Expect{Either: true, Why: "renumbering from/onto a pre-open may be refused"}
+	}
 	return ok()
 }
 
